@@ -70,6 +70,10 @@ fn family<T: UniMerge + UniIngest>(checks: &mut Vec<Box<dyn Check>>, tier: Tier)
     } else {
         checks.push(merge_check::<T>("C02", "two13", 2, 7, filter));
     }
+    // large n through self-merges: n = |w|·2^k and cross merges of two such chains
+    for a in ["small", "off9", "tail"] {
+        checks.push(super::longrun::doubling::<T>("C02", a, 3, 2, if q { 24 } else { 40 }, filter, T::ORDER >= 4));
+    }
 }
 
 pub fn plan(tier: Tier) -> Plan {
@@ -84,7 +88,7 @@ pub fn plan(tier: Tier) -> Plan {
     family::<M8>(&mut checks, tier);
     family::<M10>(&mut checks, tier);
     Plan {
-        rule: "for every word over 4-letter sub-alphabets (and 2-/3-letter alphabets to greater length) up to the length bound: the set R(w) of ALL estimator states producible by any composition of w into contiguous, possibly empty chunks and any binary merge tree with either merge direction at every node, computed bottom-up on the real collect()/merge(); every state of every R(w) judged against the exact statistics of w under the single-pass envelopes; states are distinct (word, Debug string) pairs, non-trivial for |w| >= 2".into(),
+        rule: "large n as a finite family: for every pair of words of length <= 2 the chains w·2^i built by merging an estimator with itself i times (i <= 24 quick / 40 thorough) and every cross merge of the two chains in both directions, judged against the exact statistics of the weighted multiset; AND for every word over 4-letter sub-alphabets (and 2-/3-letter alphabets to greater length) up to the length bound: the set R(w) of ALL estimator states producible by any composition of w into contiguous, possibly empty chunks and any binary merge tree with either merge direction at every node, computed bottom-up on the real collect()/merge(); every state of every R(w) judged against the exact statistics of w under the single-pass envelopes; states are distinct (word, Debug string) pairs, non-trivial for |w| >= 2".into(),
         assumptions: common_assumptions(),
         checks,
     }
